@@ -65,6 +65,11 @@ CLAIMED = {
          "The PAR2 format is specified in TLA+ (Par2Format.tla over GF.tla and Par2Const.tla, where the constants are defined from the specification's exclusion rule and checked to be 32768 distinct elements of order 65535). TLC checks the volume layout for every R and enumerates small input shapes; every shape and a seeded family of large sets (sizes around the slice size and around 16384, slice sizes 4..128 KiB, up to hundreds of recovery blocks in several volume files, thousands to 32768 slices, goroutines 1..40) go through the real par2.Create; an independent tokenizer (written from the PAR 2.0 specification, importing nothing from gopar) turns every written file into records and TLC decides framing, packet MD5s, set id, file ids and their little-endian order, file/16k hashes, per-slice MD5/CRC32, creator packets, 'blocks 0..n-1 exactly once' and the recovery data itself (every word for small sets, seeded word columns of every block for large ones).",
          "MD5/CRC32 computed by Go's standard library inside the observer; sampled word columns for large sets.",
          "DESIGN.md section 5 C05"),
+ "C06": ("model_checking",
+         "Par2Reader.tla reader model: TLC checks layout invariance over 60,480 layouts (packet order/duplication/foreign+unknown packets x exponent schemes x distributions x volume styles x file-name classes); each layout written by a reference writer (itself judged by Par2Format) and run through real par2.Verify/Repair; results compared with gopar's canonical output by TLC",
+         "TLC checks on the reader specification (readFile as an order-insensitive fold, literal prefix/suffix discovery, union by exponent) that every layout of the class opens identically and yields exactly the recovery blocks stored beside the index; every layout (a seeded 4000 in the quick tier, all 60,480 in the thorough tier) is materialised by an independent reference writer whose bytes TLC first judges with Par2Format, then the real par2.Verify and par2.Repair run on it with two fixed damages and relative/absolute index paths, and TLC requires the same verify counts, every recovery block found, the same repair outcome and restored bytes as for gopar's own canonical output of the same data and damage.",
+         "Small fixed data set (2 files / 3 slices); names restricted to ASCII; reference writer validated by the format specification rather than trusted.",
+         "DESIGN.md section 5 C06"),
 }
 
 NOT_YET = "check under construction in this round; not claimed until it runs green on the unchanged tree"
